@@ -2,8 +2,9 @@
 
 Pipeline: C19_Algo (TLC: loops as state machines + negative controls), C19_Gen (TLC:
 enumerate the cases, check every implementation-shaped algorithm against the meaning)
--> drive (the real integer_power / extended_euclidean / gcd / lcm / fft / ifft / sym_fft /
-Polynomial operators / mappers / quotient) -> C19_Judge (TLC judges every recorded
+-> drive (the real integer_power / extended_euclidean / gcd / lcm - through every entry point:
+pymbolic.algorithm and the traits objects - / fft / ifft / sym_fft / Polynomial operators /
+mappers / quotient) -> C19_Judge (TLC judges every recorded
 observation).  Python only builds objects, calls functions and serialises."""
 from __future__ import annotations
 
